@@ -305,6 +305,7 @@ pub fn build_xlsx(w: &Value) -> Vec<u8> {
         let file = sh["file"].as_str().unwrap();
         let target = match sh["target"].as_str().unwrap_or("rel") {
             "abs" => format!("/xl/{}/{}", dir, file),
+            "xlrel" => format!("xl/{}/{}", dir, file),
             _ => format!("{}/{}", dir, file),
         };
         let kind = match dir {
